@@ -26,26 +26,34 @@ pub fn take_problems() -> Vec<(String, String)> {
 }
 
 /// a fresh library-allocated handle: its storage must be a live block of the size of its struct
-fn created(kind: &'static str, p: usize, size: usize) {
+/// (returns the serial number of the allocation: the address may be reused later)
+fn created(kind: &'static str, p: usize, size: usize) -> u64 {
     if !alloc::active() {
-        return;
+        return 0;
     }
-    match alloc::live_size(p) {
-        Some(s) if s == size => {}
-        Some(s) => problem(format!("handle.storage_size.{kind}"), format!("{kind}: the handle points to a block of {s} bytes, the struct has {size}")),
-        None => problem(format!("handle.not_storage.{kind}"), format!("{kind}: the handle does not point to the start of a block the library allocated")),
+    match alloc::live_block(p) {
+        Some((s, n)) if s == size => n,
+        Some((s, n)) => {
+            problem(format!("handle.storage_size.{kind}"), format!("{kind}: the handle points to a block of {s} bytes, the struct has {size}"));
+            n
+        }
+        None => {
+            problem(format!("handle.not_storage.{kind}"), format!("{kind}: the handle does not point to the start of a block the library allocated"));
+            0
+        }
     }
 }
 
-/// after the call that releases / consumes the handle its storage must be gone
-fn released(kind: &'static str, p: usize) {
-    if alloc::active() && alloc::live_size(p).is_some() {
+/// after the call that releases / consumes the handle its storage (that allocation) must be gone
+fn released(kind: &'static str, p: usize, serial: u64) {
+    if alloc::active() && serial != 0 && alloc::live_block(p).map(|(_, n)| n == serial).unwrap_or(false) {
         problem(format!("handle.storage_leaked.{kind}"), format!("{kind}: the storage of the handle is still allocated after the call that releases it"));
     }
 }
 
 struct Owned<X> {
     h: *mut X,
+    serial: u64,
     kind: &'static str,
     drop_fn: unsafe extern "C" fn(*mut X),
 }
@@ -53,8 +61,8 @@ struct Owned<X> {
 impl<X> Owned<X> {
     fn new(kind: &'static str, h: *mut X, size: usize, drop_fn: unsafe extern "C" fn(*mut X)) -> Self {
         assert!(!h.is_null(), "harness: NULL handle for {kind} after IOX2_OK");
-        created(kind, h as usize, size);
-        Owned { h, kind, drop_fn }
+        let serial = created(kind, h as usize, size);
+        Owned { h, serial, kind, drop_fn }
     }
 
     /// `h_ref` argument of the C functions
@@ -63,17 +71,17 @@ impl<X> Owned<X> {
     }
 
     /// for consuming calls; the caller checks the release afterwards with `released`
-    fn into_raw(self) -> *mut X {
-        let h = self.h;
+    fn into_raw(self) -> (*mut X, u64) {
+        let r = (self.h, self.serial);
         std::mem::forget(self);
-        h
+        r
     }
 }
 
 impl<X> Drop for Owned<X> {
     fn drop(&mut self) {
         unsafe { (self.drop_fn)(self.h) };
-        released(self.kind, self.h as usize);
+        released(self.kind, self.h as usize, self.serial);
     }
 }
 
@@ -95,11 +103,11 @@ pub fn create_node(config: &Config, local: bool) -> R<Box<dyn Node>> {
         iox2_config_from_ptr(config as *const Config, null_mut(), &mut cfg);
         let cfg = Owned::new("config", cfg, sz::<iox2_config_t>(), iox2_config_drop);
         let nb = iox2_node_builder_new(null_mut());
-        created("node_builder", nb as usize, sz::<iox2_node_builder_t>());
+        let nb_serial = created("node_builder", nb as usize, sz::<iox2_node_builder_t>());
         iox2_node_builder_set_config(&nb, cfg.r());
         let mut node: iox2_node_h = null_mut();
         let code = iox2_node_builder_create(nb, null_mut(), service_type(local), &mut node);
-        released("node_builder", nb as usize);
+        released("node_builder", nb as usize, nb_serial);
         drop(cfg);
         rc(code)?;
         Ok(Box::new(CNode { h: Owned::new("node", node, sz::<iox2_node_t>(), iox2_node_drop) }))
@@ -136,7 +144,7 @@ impl Node for CNode {
         unsafe {
             let name = new_name(&service_name("ps", spec.name))?;
             let sb = iox2_node_service_builder(self.h.r(), null_mut(), iox2_cast_service_name_ptr(name.0.h));
-            created("service_builder", sb as usize, sz::<iox2_service_builder_t>());
+            let sb_serial = created("service_builder", sb as usize, sz::<iox2_service_builder_t>());
             let b = iox2_service_builder_pub_sub(sb);
             set_type(iox2_service_builder_pub_sub_set_payload_type_details, &b, &spec.payload, spec.dynamic);
             if let Some(h) = &spec.user_header {
@@ -172,7 +180,7 @@ impl Node for CNode {
                 How::Open => iox2_service_builder_pub_sub_open(b, null_mut(), &mut pf),
                 How::OpenOrCreate => iox2_service_builder_pub_sub_open_or_create(b, null_mut(), &mut pf),
             };
-            released("service_builder", sb as usize);
+            released("service_builder", sb as usize, sb_serial);
             drop(name);
             rc(code)?;
             Ok(Box::new(CPsSvc {
@@ -187,7 +195,7 @@ impl Node for CNode {
         unsafe {
             let name = new_name(&service_name("ev", spec.name))?;
             let sb = iox2_node_service_builder(self.h.r(), null_mut(), iox2_cast_service_name_ptr(name.0.h));
-            created("service_builder", sb as usize, sz::<iox2_service_builder_t>());
+            let sb_serial = created("service_builder", sb as usize, sz::<iox2_service_builder_t>());
             let b = iox2_service_builder_event(sb);
             if let Some(v) = spec.max_notifiers {
                 iox2_service_builder_event_set_max_notifiers(&b, v);
@@ -216,7 +224,7 @@ impl Node for CNode {
                 How::Open => iox2_service_builder_event_open(b, null_mut(), &mut pf),
                 How::OpenOrCreate => iox2_service_builder_event_open_or_create(b, null_mut(), &mut pf),
             };
-            released("service_builder", sb as usize);
+            released("service_builder", sb as usize, sb_serial);
             drop(name);
             rc(code)?;
             Ok(Box::new(CEvSvc { h: Owned::new("port_factory_event", pf, sz::<iox2_port_factory_event_t>(), iox2_port_factory_event_drop) }))
@@ -265,12 +273,15 @@ impl PsSvc for CPsSvc {
     fn publisher(&self, cfg: &PubCfg) -> R<Box<dyn Publisher>> {
         unsafe {
             let b = iox2_port_factory_pub_sub_publisher_builder(self.h.r(), null_mut());
-            created("publisher_builder", b as usize, sz::<iox2_port_factory_publisher_builder_t>());
+            let b_serial = created("publisher_builder", b as usize, sz::<iox2_port_factory_publisher_builder_t>());
             if let Some(v) = cfg.max_loans {
                 iox2_port_factory_publisher_builder_set_max_loaned_samples(&b, v);
             }
             if let Some(v) = cfg.max_slice_len {
                 iox2_port_factory_publisher_builder_set_initial_max_slice_len(&b, v);
+            }
+            if cfg.discard {
+                iox2_port_factory_publisher_builder_backpressure_strategy(&b, iox2_backpressure_strategy_e::DISCARD_DATA);
             }
             if let Some(v) = cfg.alloc {
                 iox2_port_factory_publisher_builder_set_allocation_strategy(
@@ -284,7 +295,7 @@ impl PsSvc for CPsSvc {
             }
             let mut p: iox2_publisher_h = null_mut();
             let code = iox2_port_factory_publisher_builder_create(b, null_mut(), &mut p);
-            released("publisher_builder", b as usize);
+            released("publisher_builder", b as usize, b_serial);
             rc(code)?;
             Ok(Box::new(CPublisher { h: Owned::new("publisher", p, sz::<iox2_publisher_t>(), iox2_publisher_drop), elem: self.elem, hdr: self.hdr }))
         }
@@ -293,7 +304,7 @@ impl PsSvc for CPsSvc {
     fn subscriber(&self, cfg: &SubCfg) -> R<Box<dyn Subscriber>> {
         unsafe {
             let b = iox2_port_factory_pub_sub_subscriber_builder(self.h.r(), null_mut());
-            created("subscriber_builder", b as usize, sz::<iox2_port_factory_subscriber_builder_t>());
+            let b_serial = created("subscriber_builder", b as usize, sz::<iox2_port_factory_subscriber_builder_t>());
             if let Some(v) = cfg.buffer {
                 iox2_port_factory_subscriber_builder_set_buffer_size(&b, v);
             }
@@ -302,7 +313,7 @@ impl PsSvc for CPsSvc {
             }
             let mut s: iox2_subscriber_h = null_mut();
             let code = iox2_port_factory_subscriber_builder_create(b, null_mut(), &mut s);
-            released("subscriber_builder", b as usize);
+            released("subscriber_builder", b as usize, b_serial);
             rc(code)?;
             Ok(Box::new(CSubscriber { h: Owned::new("subscriber", s, sz::<iox2_subscriber_t>(), iox2_subscriber_drop), hdr: self.hdr }))
         }
@@ -424,9 +435,9 @@ impl Loan for CLoan {
     fn send(self: Box<Self>) -> R<usize> {
         unsafe {
             let mut recipients: usize = usize::MAX;
-            let raw = self.h.into_raw();
+            let (raw, raw_serial) = self.h.into_raw();
             let code = iox2_sample_mut_send(raw, &mut recipients);
-            released("sample_mut", raw as usize);
+            released("sample_mut", raw as usize, raw_serial);
             rc(code)?;
             Ok(recipients)
         }
@@ -541,14 +552,14 @@ impl EvSvc for CEvSvc {
     fn notifier(&self, default_id: Option<usize>) -> R<Box<dyn Notifier>> {
         unsafe {
             let b = iox2_port_factory_event_notifier_builder(self.h.r(), null_mut());
-            created("notifier_builder", b as usize, sz::<iox2_port_factory_notifier_builder_t>());
+            let b_serial = created("notifier_builder", b as usize, sz::<iox2_port_factory_notifier_builder_t>());
             if let Some(v) = default_id {
                 let id = iox2_event_id_t { value: v };
                 iox2_port_factory_notifier_builder_set_default_event_id(&b, &id);
             }
             let mut n: iox2_notifier_h = null_mut();
             let code = iox2_port_factory_notifier_builder_create(b, null_mut(), &mut n);
-            released("notifier_builder", b as usize);
+            released("notifier_builder", b as usize, b_serial);
             rc(code)?;
             Ok(Box::new(CNotifier { h: Owned::new("notifier", n, sz::<iox2_notifier_t>(), iox2_notifier_drop) }))
         }
@@ -557,10 +568,10 @@ impl EvSvc for CEvSvc {
     fn listener(&self) -> R<Box<dyn Listener>> {
         unsafe {
             let b = iox2_port_factory_event_listener_builder(self.h.r(), null_mut());
-            created("listener_builder", b as usize, sz::<iox2_port_factory_listener_builder_t>());
+            let b_serial = created("listener_builder", b as usize, sz::<iox2_port_factory_listener_builder_t>());
             let mut l: iox2_listener_h = null_mut();
             let code = iox2_port_factory_listener_builder_create(b, null_mut(), &mut l);
-            released("listener_builder", b as usize);
+            released("listener_builder", b as usize, b_serial);
             rc(code)?;
             Ok(Box::new(CListener { h: Owned::new("listener", l, sz::<iox2_listener_t>(), iox2_listener_drop) }))
         }
